@@ -135,13 +135,15 @@ def gen_dhcp():
     bdc = fn_body(mod, "build_default_config")
     # (1..((1 << (32 - p4.prefixlen)) - K))
     defk = grab("dhcp.defaultRangeUpperMinus", bdc,
-                r"\(\s*1\s*\.\.\s*\(\s*\(\s*1\s*<<\s*\(\s*32\s*-\s*p4\.prefixlen\s*\)\s*\)\s*-\s*([0-9]+)\s*\)\s*\)\s*\.map",
+                r"\(\s*1\s*\.\.\s*\(\s*\(\s*1(?:_u32)?\s*<<\s*\(\s*32\s*-\s*p4\.prefixlen\s*\)\s*\)\s*-\s*([0-9]+)\s*\)\s*\)\s*\.map",
                 "dhcp/mod.rs build_default_config", lambda m: int(m.group(1)))
     # for i in 1..(((1 << (32 - subnet.prefixlen)) - A) - B)   or   1..((1 << ..) - A)
     pp = fn_body(cfgsrc, "parse_policy")
     subk = grab("dhcp.applySubnetUpperMinus", pp,
-                r"for\s+i\s+in\s+1\s*\.\.\s*\(+\s*1\s*<<\s*\(\s*32\s*-\s*subnet\.prefixlen\s*\)\s*\)\s*((?:-\s*[0-9]+\s*\)?\s*)+)\{",
+                r"for\s+i\s+in\s+1\s*\.\.\s*\(+\s*1(?:_u32)?\s*<<\s*\(\s*32\s*-\s*subnet\.prefixlen\s*\)\s*\)\s*((?:-\s*[0-9]+\s*\)?\s*)+)\{",
                 "dhcp/config.rs parse_policy apply-subnet", lambda m: sum(int(x) for x in re.findall(r"[0-9]+", m.group(1))))
+    defmin = grab("dhcp.defaultPoolMinLen", bdc, r"if\s+p4\.prefixlen\s*<\s*([0-9]+)\s*\{\s*return None;\s*\}\s*let subnet =", "dhcp/mod.rs build_default_config", lambda m: int(m.group(1)))
+    submin = grab("dhcp.applySubnetMinLen", pp, r"if\s+subnet\.prefixlen\s*<\s*([0-9]+)\s*\{\s*return Err\(", "dhcp/config.rs parse_policy apply-subnet", lambda m: int(m.group(1)))
     rng = grab("dhcp.applyRangeInclusive", pp, r"for\s+i\s+in\s+u32::from\(start\)\s*\.\.=\s*u32::from\(end\)", "dhcp/config.rs parse_policy apply-range", lambda m: True)
     hd = fn_body(mod, "handle_discover")
     offer51 = grab("dhcp.offerHasLeaseTime", hd, r"OPTION_LEASETIME", "dhcp/mod.rs handle_discover", lambda m: True)
@@ -176,6 +178,9 @@ def dstElse : DstExpr := .{classify(dst[2] if dst else None)}
 def defaultRangeUpperMinus : Nat := {nat(defk, "99")}
 /-- `apply-subnet`: host offsets are `1..((1 << (32-len)) - k)` (exclusive upper bound) -/
 def applySubnetUpperMinus : Nat := {nat(subk, "99")}
+/-- `addresses` prefixes shorter than this get no default pool; `apply-subnet` shorter than this is refused -/
+def defaultPoolMinLen : Nat := {nat(defmin)}
+def applySubnetMinLen : Nat := {nat(submin)}
 /-- `apply-range` iterates `start..=end` -/
 def applyRangeInclusive : Bool := {boolean(rng)}
 /-- `handle_discover` sets option 51 (lease time) on the OFFER -/
@@ -586,6 +591,35 @@ def gen_pkt():
     L.append("def cookieMinLen : Nat := %s" % nat(v))
     v = grab("pkt.edeMinLen", fn_body(dn, "get_extended_dns_error"), r"\.filter\(\|opt\| opt\.data\.len\(\) >= ([0-9]+)\)\s*\.map\(\|opt\| \{\s*\(\s*EdeCode\(u16::from_be_bytes\(\[opt\.data\[0\], opt\.data\[1\]\]\)\),\s*String::from_utf8_lossy\(&opt\.data\[2\.\.\]\)", "dnspkt get_extended_dns_error", lambda m: int(m.group(1)))
     L.append("def edeMinLen : Nat := %s" % nat(v))
+    # configuration loader (C19)
+    cf = strip_comments(read(os.path.join(CORE, "config.rs")))
+    v = grab("cfg.typeNameChecked", fn_body(cf, "type_to_name"), r"yaml::Yaml::Array\(a\) => match a\.first\(\) \{\s*Some\(first\) => format!\(\"Array of \{\}\", type_to_name\(first\)\),\s*None => \"empty Array\"\.into\(\),\s*\}",
+             "config.rs type_to_name", lambda m: True)
+    L.append("def cfgTypeNameChecked : Bool := %s" % boolean(v))
+    sd = fn_body(cf, "str_duration") or ""
+    ok = all(re.search(p_, sd, re.S) for p_ in (
+        r"num\.unwrap_or\(0_u64\)\s*\.checked_mul\(10\)\s*\.and_then\(\|n\| n\.checked_add\(digit\)\)\s*\.ok_or_else\(too_large\)\?",
+        r"let n = num\.take\(\)\.ok_or_else\(",
+        r"n\.checked_mul\(scale\)\s*\.and_then\(\|secs\| ret\.checked_add\(std::time::Duration::from_secs\(secs\)\)\)\s*\.ok_or_else\(too_large\)",
+        r"'s' => ret = add\(ret, &mut num, 1, c\)\?,\s*'m' => ret = add\(ret, &mut num, 60, c\)\?,\s*'h' => ret = add\(ret, &mut num, 3600, c\)\?,\s*'d' => ret = add\(ret, &mut num, 86400, c\)\?,\s*'w' => ret = add\(ret, &mut num, 7 \* 86400, c\)\?,",
+        r"if num\.is_some\(\) \{\s*ret = add\(ret, &mut num, 1, 's'\)\?;\s*\}")) and not re.search(r"\.unwrap\(\)|\+=|[^_]\* 60", sd)
+    record("cfg.durationChecked", ok, "config.rs str_duration", ok=ok)
+    L.append("def cfgDurationChecked : Bool := %s" % boolean(ok))
+    v = grab("cfg.hexdigitArms", fn_body(cf, "hexdigit"), r"b'A'\.\.=b'F' => Ok\(c - b'A' \+ 10\),\s*b'a'\.\.=b'f' => Ok\(c - b'a' \+ 10\),\s*b'0'\.\.=b'9' => Ok\(c - b'0'\),\s*_ => Err\(",
+             "config.rs hexdigit", lambda m: True)
+    L.append("def cfgHexdigitArms : Bool := %s" % boolean(v))
+    okS, okL = True, True
+    for fname, lim in (("str_prefix", None), ("str_prefix4", "32"), ("str_prefix6", "128")):
+        b = fn_body(cf, fname) or ""
+        okS = okS and bool(re.search(r"if sections\.len\(\) != 2 \{\s*Err\(", b)) and len(re.findall(r"sections\[", b)) == 2
+        if lim:
+            okL = okL and bool(re.search(r"Ok\(Some\(_\)\) if prefixlen > %s => Err\(prefix_too_long" % lim, b))
+        else:
+            okL = okL and bool(re.search(r"V4\(_\)\)\) if prefixlen > 32 =>", b)) and bool(re.search(r"V6\(_\)\)\) if prefixlen > 128 =>", b))
+    record("cfg.sectionsChecked", okS, "config.rs str_prefix*", ok=okS)
+    record("cfg.prefixLenChecked", okL, "config.rs str_prefix*", ok=okL)
+    L.append("def cfgSectionsChecked : Bool := %s" % boolean(okS))
+    L.append("def cfgPrefixLenChecked : Bool := %s" % boolean(okL))
     L.append("end Erbium.Generated.Pkt")
     write_if_changed(os.path.join(OUT, "Pkt.lean"), "\n".join(L) + "\n")
     # census of the operations that can panic, per decoder source: the model has one primitive per entry
@@ -595,7 +629,12 @@ def gen_pkt():
              "dnsparse": (os.path.join(CORE, "dns/parse.rs"), ()),
              "icmppkt": (os.path.join(CORE, "radv/icmppkt.rs"), ("arbitrary", "serialise_router_advertisement", "serialise", "find_option")),
              "lldppkt": (os.path.join(CORE, "lldp/lldppkt.rs"), ("to_wire", "validate_format", "fmt")),
-             "lldpmod": (os.path.join(CORE, "lldp/mod.rs"), ())}
+             "lldpmod": (os.path.join(CORE, "lldp/mod.rs"), ()),
+             "config": (os.path.join(CORE, "config.rs"), ()),
+             "dhcpconfig": (os.path.join(CORE, "dhcp/config.rs"), ()),
+             "radvconfig": (os.path.join(CORE, "radv/config.rs"), ()),
+             "dnsconfig": (os.path.join(CORE, "dns/config.rs"), ()),
+             "acl": (os.path.join(CORE, "acl.rs"), ())}
     cur = {k: census(p, skip) for k, (p, skip) in files.items()}
     if os.environ.get("VERIF_PIN_CENSUS"):
         json.dump(cur, open(pin_path, "w"), indent=1, sort_keys=True)
